@@ -24,7 +24,7 @@ union Item = User | Post
 enum Tag { A B }
 input Flt { min: Int = 0 max: Int words: [String!] }
 type Query { me: User node(id: ID!): Node items: [Item] user(id: ID = "1"): User
-  echo(x: Int, s: String = "d", l: [Int!], f: Flt, t: Tag): String strict: User! }
+  echo(x: Int, s: String = "d", l: [Int!], f: Flt, t: Tag): String strict: User! sum(nums: [Int!] = [1], f: Flt = {words: ["d"]}): Int }
 type Mutation { inc(by: Int = 1): Int }
 """
 
@@ -72,7 +72,7 @@ def make_world(name, age, nn, score, best_none, friends_shape, raise_idx):
         "grid": [[1, None], None, [age]], "posts": [p1, None],
     }
     p1b = dict(p1, author=u1)
-    root = {"me": u1, "node": p1b, "items": [u1, p1b, None], "user": u2, "strict": u1, "echo": "e", "inc": 1}
+    root = {"me": u1, "node": p1b, "items": [u1, p1b, None], "user": u2, "strict": u1, "echo": "e", "inc": 1, "sum": 3}
     raising = [None, ("User", "name"), ("User", "nn"), ("Post", "author"), ("Query", "me"), ("User", "best"), ("Query", "echo"), ("Post", "score")][raise_idx]
     return root, raising
 
